@@ -1013,6 +1013,9 @@ def s_sink(draw):
         "dst_exists": draw(st.sampled_from([False, False, False, True])),
         "dtype": draw(st.sampled_from(["bytes", "bytearray"])),
         "dst_name": draw(st.sampled_from(DST_NAMES)),
+        # a part uploaded twice before finalise (a retried task, an abandoned earlier run for the same destination):
+        # first some other content of the *same length*, then the content whose record is handed to finalise
+        "rewrite": [draw(st.sampled_from([False, False, False, True])) for _ in range(n)],
     }
 
 
@@ -1060,6 +1063,11 @@ def _o_sink(case, T, root: Path, MPUFileSink):
     for i in case["write_order"]:
         no = parts[i][0]
         data = datas[i] if case["dtype"] == "bytes" else bytearray(datas[i])
+        if (case.get("rewrite") or [False] * n)[i] and len(datas[i]) > 0:
+            stale = _blob(parts[i][2] + 101, parts[i][1])
+            if stale != datas[i]:
+                (sink if case["clone"][i] else clone)(no, stale)
+                T.cls("part_uploaded_twice_same_length")
         recs[i] = (clone if case["clone"][i] else sink)(no, data)
     if not case["dst_exists"]:
         require(not dst.exists(), "destination exists before finalise")
